@@ -1,5 +1,346 @@
-/- Driver for C13 (stub until the property's model is written). -/
+/- Driver for C13: the real qmail-local main() (harness/c13_local.c) vs `Nq.Local.run`; oracle = the documented
+   behaviour `Nq.LocalSpec` evaluated on the implementation's outputs.
+   Input lines: `<doit> <blob> <exit> <stdout> <stderr> <opened> <events> <env>` (see the harness header). -/
 import Drv.Util
-open Drv
-def handle (st : Stats) (_line : String) : IO Stats := return { st with cases := st.cases + 1 }
+import Nq.Local
+import Nq.Spec.LocalSpec
+
+open Nq Nq.Local Drv
+
+structure FEnt where
+  name : Bytes
+  kind : Char
+  mode : Nat
+  content : Bytes
+
+structure Case where
+  doit : Bool
+  home : Option Nat
+  qq : Nat
+  dash : Bytes
+  ext : Bytes
+  host : Bytes
+  loc : Bytes
+  sender : Bytes
+  alias : Bytes
+  msg : Bytes
+  files : List FEnt
+
+def octal (s : String) : Option Nat :=
+  if s.isEmpty then none else
+  s.toList.foldl (fun acc c => match acc with
+    | none => none
+    | some n => if '0' ≤ c ∧ c ≤ '7' then some (n * 8 + (c.toNat - '0'.toNat)) else none) (some 0)
+
+def parseFile (s : String) : Option FEnt :=
+  match s.splitOn ":" with
+  | [n, k, m, c] =>
+    match unhex n, octal m, unhex c with
+    | some n, some m, some c => some { name := n, kind := k.toList.headD 'f', mode := m, content := c }
+    | _, _, _ => none
+  | _ => none
+
+def parseBlob (doit : Bool) (b : String) : Option Case :=
+  match b.splitOn "," with
+  | [hm, qq, dash, ext, host, loc, sender, al, msg, files] =>
+    let fs : Option (List FEnt) :=
+      if files == "-" then some [] else (files.splitOn ";").foldr (fun s acc => match acc, parseFile s with
+        | some l, some e => some (e :: l)
+        | _, _ => none) (some [])
+    match unhex dash, unhex ext, unhex host, unhex loc, unhex sender, unhex al, unhex msg, fs with
+    | some dash, some ext, some host, some loc, some sender, some al, some msg, some fs =>
+      some { doit := doit, home := if hm == "x" then none else octal hm, qq := qq.toNat?.getD 0, dash := dash, ext := ext,
+             host := host, loc := loc, sender := sender, alias := al, msg := msg, files := fs }
+    | _, _, _, _, _, _, _, _ => none
+  | _ => none
+
+/-! ### the world, reconstructed from the case description (trusted glue: POSIX path lookup) -/
+
+def collapse : Bytes → Bytes
+  | a :: b :: r => if a = 47 ∧ b = 47 then collapse (b :: r) else a :: collapse (b :: r)
+  | l => l
+
+def stripSlash (l : Bytes) : Bytes := (l.reverse.dropWhile (· == 47)).reverse
+
+def findEnt (fs : List FEnt) (n : Bytes) : Option FEnt := fs.find? (fun e => e.name == n)
+
+def fsOf (fs : List FEnt) (n : Bytes) : FStat :=
+  match findEnt fs n with
+  | some e => if e.kind == 'T' || e.kind == 'A' then .temp else if e.kind == 'f' then .reg e.mode e.content else .absent
+  | none =>
+    let m := collapse n
+    if m.getLast? == some 47 then .absent else
+    match findEnt fs m with
+    | some e => if e.kind == 'f' then .reg e.mode e.content else .absent
+    | none => .absent
+
+def exOf (fs : List FEnt) (n : Bytes) : Option Bool :=
+  match findEnt fs n with
+  | some e => if e.kind == 'T' then none else if e.kind == 'A' then some false else some true
+  | none =>
+    let m := collapse n
+    match findEnt fs (stripSlash m) with
+    | some e => if m.getLast? == some 47 then some (e.kind == 'd' || e.kind == 'm') else some (e.kind == 'f' || e.kind == 'd' || e.kind == 'm')
+    | none => some false
+
+def isInfix (p : Bytes) : Bytes → Bool
+  | [] => p.isEmpty
+  | c :: r => (p.isPrefixOf (c :: r)) || isInfix p r
+
+/-- last "exit <digits>" in the command -/
+def lastExit (cmd : Bytes) : Option Nat :=
+  let rec go : Bytes → Option Nat → Option Nat
+    | [], acc => acc
+    | c :: r, acc =>
+      if (str "exit ").isPrefixOf (c :: r) then
+        let ds := (r.drop 4).takeWhile isDigit
+        go r (if ds.isEmpty then acc else some (decVal ds))
+      else go r acc
+  go cmd none
+
+/-- the stand-in commands of the harness: "kill -9 $$" crashes, "... exit N" exits N, anything else exits 0 -/
+def pxOf (cmd : Bytes) : PRes :=
+  if isInfix (str "kill") cmd then .crashed
+  else match lastExit cmd with
+    | some n => .exited (n % 256)
+    | none => .exited 0
+
+def dropDotSlash : Bytes → Bytes
+  | 46 :: 47 :: r => r
+  | l => l
+
+def maildirText (code : Nat) : Bytes :=
+  match (Nq.Gen.LocalExit.maildirCases.lookup code).getD Nq.Gen.LocalExit.maildirDefault with
+  | some (_, t) => str t
+  | none => []
+def maildirCode (code : Nat) : Nat :=
+  match (Nq.Gen.LocalExit.maildirCases.lookup code).getD Nq.Gen.LocalExit.maildirDefault with
+  | some (c, _) => c
+  | none => 0
+
+/-- success/failure of a file delivery in the generated homes: mbox files directly in the home succeed;
+a maildir succeeds iff it is a listed maildir (`m`); a plain directory lacks tmp/ (child exits 1);
+anything else cannot be entered (child exits 2) -/
+def dxOf (fs : List FEnt) : Instr → Option Why
+  | .mbox f =>
+    let p := dropDotSlash (cstr f)
+    if p.contains 47 || p.isEmpty || (cstr f).head? == some 47 || (findEnt fs p).isSome then
+      some (.fileFail 111 (str "Unable to open " ++ cstr f ++ str ": "))
+    else none
+  | .maildir f =>
+    let p := stripSlash (dropDotSlash (cstr f))
+    match findEnt fs p with
+    | some e => if e.kind == 'm' then none
+                else if e.kind == 'd' then some (.fileFail (maildirCode 1) (maildirText 1))
+                else some (.fileFail (maildirCode 2) (maildirText 2))
+    | none => some (.fileFail (maildirCode 2) (maildirText 2))
+  | _ => none
+
+def worldOf (c : Case) : World :=
+  { home := c.home, fs := fsOf c.files, ex := exOf c.files, px := pxOf, dx := dxOf c.files,
+    qq := if c.qq == 1 then str "Dqq permanent problem (#5.3.0)" else if c.qq == 2 then str "Zqq temporary problem (#4.3.0)" else [],
+    qp := 4242 }
+
+def argsOf (c : Case) : Args :=
+  { doit := c.doit, loc := c.loc, dash := c.dash, ext := c.ext, host := c.host, sender := c.sender,
+    aliasempty := c.alias, msg := c.msg }
+
+/-! ### rendering the model's result in the harness's vocabulary -/
+
+def hexList (l : List Bytes) : String := if l.isEmpty then "-" else ",".intercalate (l.map hex)
+
+def effStr (dt msg : Bytes) : Effect → String
+  | .deliver (.mbox f) => "M" ++ hex f
+  | .deliver (.maildir f) => "D" ++ hex f
+  | .deliver (.program c) => "P" ++ hex c
+  | .deliver (.forward a) => "F" ++ hex a
+  | .queue s rs => "Q" ++ hex s ++ ":" ++ hex (dt ++ msg) ++ String.join (rs.map (fun r => ":" ++ hex r))
+
+def effsStr (dt msg : Bytes) (l : List Effect) : String := if l.isEmpty then "-" else ",".intercalate (l.map (effStr dt msg))
+
+/-- expected stderr: (text, exact?) -/
+def whyText : Why → Bytes × Bool
+  | .homeStat => (str "Unable to stat home directory: ", false)
+  | .homeWritable => (str Nq.Gen.LocalExit.homeWritableText ++ [LF], true)
+  | .homeSticky => (str Nq.Gen.LocalExit.homeStickyText ++ [LF], true)
+  | .looping => (str Nq.Gen.LocalExit.loopingText ++ [LF], true)
+  | .qmailTemp n => (str "Unable to open " ++ n ++ str ": ", false)
+  | .qmailWritable => (str Nq.Gen.LocalExit.qmailWritableText ++ [LF], true)
+  | .noMailbox => (str Nq.Gen.LocalExit.noMailboxText ++ [LF], true)
+  | .blankFirst => (str Nq.Gen.LocalExit.blankFirstText ++ [LF], true)
+  | .xbitFile => (str Nq.Gen.LocalExit.xbitFileText ++ [LF], true)
+  | .xbitProg => (str Nq.Gen.LocalExit.xbitProgText ++ [LF], true)
+  | .progExit _ => ([], true)
+  | .childCrashed => (str Nq.Gen.LocalExit.childCrashedText ++ [LF], true)
+  | .fileFail _ t => (t, false)
+  | .fwdFail _ t => (str "Unable to forward message: " ++ t ++ str ".\n", true)
+
+def stage (r : Result) : Nat :=
+  match r.why with
+  | some .homeStat | some .homeWritable | some .homeSticky => 0
+  | some .looping => 1
+  | _ => if r.ueo.isSome then 3 else 2
+
+def envExpect (c : Case) (r : Result) : List (Option Bytes × Bool) :=  -- (value, compare-as-prefix)
+  let st := stage r
+  let on (k : Nat) (v : Bytes) : Option Bytes := if st ≥ k then some v else none
+  let e2 := afterDash c.ext; let e3 := afterDash e2; let e4 := afterDash e3
+  let h2 := beforeLastDot c.host; let h3 := beforeLastDot h2; let h4 := beforeLastDot h3
+  [ (if st ≥ 2 then r.dfltEnv else none, false), (if st ≥ 3 then r.ueo else none, false),
+    (on 1 (dtline c.loc c.host), false), (on 2 (rpline c.sender), false), (on 2 (uflinePrefix c.sender), true),
+    (on 2 e2, false), (on 2 e3, false), (on 2 e4, false), (on 2 h2, false), (on 2 h3, false), (on 2 h4, false),
+    (on 1 (envrecip c.loc c.host), false) ]
+
+def envAgree (exp : List (Option Bytes × Bool)) (got : List String) : Bool :=
+  exp.length == got.length && (exp.zip got).all (fun (e, g) =>
+    match e.1 with
+    | none => g == "!"
+    | some v => match (if g == "!" then none else unhex g) with
+      | some b => if e.2 then v.isPrefixOf b else b == v
+      | none => false)
+
+/-! ### the property oracle (documentation, evaluated on the implementation's output) -/
+
+open Nq.LocalSpec in
+def lookOf (fs : List FEnt) (n : Bytes) : Entry :=
+  match fsOf fs n with
+  | .absent => .missing
+  | .temp => .unreadable
+  | .reg m c => .file m c
+
+open Nq.LocalSpec in
+def sEffStr (dt msg : Bytes) : LocalSpec.Effect → String
+  | .mbox f => "M" ++ hex f
+  | .maildir f => "D" ++ hex f
+  | .program c => "P" ++ hex c
+  | .queue s rs => "Q" ++ hex s ++ ":" ++ hex (dt ++ msg) ++ String.join (rs.map (fun r => ":" ++ hex r))
+
+/-- returns the names of the violated clauses -/
+def oracle (c : Case) (exit : Int) (out : Bytes) (opens : String) (events : String) (env : List String) : List String := Id.run do
+  let mut bad : List String := []
+  let quiet := events == "-" && !(isInfix (str "mbox ") out || isInfix (str "maildir ") out || isInfix (str "program ") out || isInfix (str "forward ") out)
+  -- hostile envelope bytes cannot add header lines
+  for (i, nm) in [(2, "DTLINE"), (3, "RPLINE")] do
+    match env[i]? with
+    | some g => if g != "!" then
+        match unhex g with
+        | some b => if !LocalSpec.oneLine b then bad := s!"noinject:{nm}" :: bad
+        | none => pure ()
+    | none => pure ()
+  match c.home with
+  | none => return bad      -- stat(".") failing is outside the documentation
+  | some hm =>
+  if hm &&& 2 != 0 || (hm &&& 0o1000 != 0 && c.doit) then
+    if !(exit == 111 && quiet) then bad := "perm:home" :: bad
+    return bad
+  if c.doit && LocalSpec.loops c.loc c.host c.msg then
+    if !(exit == 100 && quiet) then bad := "loop" :: bad
+    return bad
+  let look := lookOf c.files
+  let cands := LocalSpec.candidates c.dash c.ext
+  let must := LocalSpec.mustOpen look cands
+  if hexList must != opens then bad := "search:order" :: bad
+  if !(c.dash.contains 46) && !(must.all LocalSpec.confined) then bad := "search:confined-spec" :: bad
+  if !(c.dash.contains 46) then
+    match (if opens == "-" then some [] else (opens.splitOn ",").foldr (fun s acc => match acc, unhex s with
+        | some l, some b => some (b :: l) | _, _ => none) (some [])) with
+    | some os => if !(os.all LocalSpec.confined) then bad := "search:confined" :: bad
+    | none => bad := "search:unparsable" :: bad
+  let sx := c.ext.map LocalSpec.safeChar
+  let owner (suffix : Bytes) : Option Bool := exOf c.files (LocalSpec.dotQmail ++ c.dash ++ sx ++ suffix)
+  let needOwner := !(c.sender == [] || c.sender == [35, 64, 91, 93])
+  let run (cmd : Bytes) : LocalSpec.Ran := match pxOf cmd with | .exited n => .exited n | .crashed => .crashed
+  let fileOK (i : LocalSpec.SInstr) : Nat := match i with
+    | .mbox f => match dxOf c.files (.mbox f) with | some w => w.code | none => 0
+    | .maildir f => match dxOf c.files (.maildir f) with | some w => w.code | none => 0
+    | _ => 0
+  -- text to follow
+  let ctl := LocalSpec.control look cands
+  let plan : Option (Bytes × Bool) :=     -- none: must fail before any instruction
+    match ctl with
+    | none => if c.dash != [] then none else some (c.alias, false)
+    | some (_, .file m content) => if m &&& 2 != 0 then none else if content.isEmpty then some (c.alias, false) else some (content, m &&& 0o100 != 0)
+    | some (_, _) => none
+  match plan with
+  | none =>
+    let want : Int := match ctl with | none => 100 | _ => 111
+    if !(exit == want && quiet) then bad := (if want == 100 then "nofile" else "perm:qmail") :: bad
+    return bad
+  | some (text, fo) =>
+    let o1 := if needOwner then owner [45, 111, 119, 110, 101, 114] else some false
+    let o2 := if needOwner && o1 == some true then owner ([45, 111, 119, 110, 101, 114, 45] ++ LocalSpec.dflt) else some false
+    match o1, o2 with
+    | some o1, some o2 =>
+      let snd := LocalSpec.forwardSender c.loc c.host c.sender o1 o2
+      let qcode : Nat := if c.qq == 1 then 100 else if c.qq == 2 then 111 else 0
+      let e := LocalSpec.follow c.doit fo text snd run fileOK qcode
+      if exit != Int.ofNat e.code then bad := s!"dispatch:exit(want {e.code})" :: bad
+      let dt := LocalSpec.dtline c.loc c.host
+      let wantEv := if e.effects.isEmpty then "-" else ",".intercalate (e.effects.map (sEffStr dt c.msg))
+      if c.doit && wantEv != events then bad := "dispatch:effects" :: bad
+      if !c.doit && events != "-" then bad := "dispatch:n-has-effects" :: bad
+      let didl := str "did " ++ fmtNat e.counts.1 ++ [43] ++ fmtNat e.counts.2.1 ++ [43] ++ fmtNat e.counts.2.2 ++ [10]
+      if !c.doit then
+        let want := (e.shown.map LocalSpec.describe).flatten ++ (if e.code == 0 then didl else [])
+        if want != out then bad := "dispatch:description" :: bad
+      else if e.code == 0 then
+        if !(didl.isPrefixOf out) then bad := "dispatch:counts" :: bad
+      return bad
+    | _, _ =>
+      if !(exit == 111 && quiet) then bad := "owner:temp" :: bad
+      return bad
+
+def handle (st : Stats) (line : String) : IO Stats := do
+  match fields line with
+  | [doitS, blob, "SKIP"] =>
+    let _ := (doitS, blob)
+    return (st.bump "skipped")
+  | [doitS, blob, exitS, outH, errH, opens, events, envS] =>
+    let doit := doitS == "1"
+    match parseBlob doit blob, unhex outH, unhex errH, exitS.toInt? with
+    | some c, some out, some err, some exit =>
+      let h := hashBytes (blob.toUTF8.toList ++ [if doit then 1 else 0])
+      let fresh := !st.seen.contains h
+      let r := run (argsOf c) (worldOf c)
+      let nontriv := !r.did.isEmpty || r.why.isSome
+      let mut st := { st with cases := st.cases + 1, seen := st.seen.insert h,
+                              nontrivial := st.nontrivial + (if fresh && nontriv then 1 else 0) }
+      st := st.bump (if doit then "deliver" else "describe")
+      st := st.bump s!"exit{exit}"
+      st := st.bump (match r.why with
+        | none => "why:ok" | some .homeStat => "why:homeStat" | some .homeWritable => "why:homeWritable" | some .homeSticky => "why:homeSticky"
+        | some .looping => "why:looping" | some (.qmailTemp _) => "why:qmailTemp" | some .qmailWritable => "why:qmailWritable"
+        | some .noMailbox => "why:noMailbox" | some .blankFirst => "why:blankFirst" | some .xbitFile => "why:xbitFile"
+        | some .xbitProg => "why:xbitProg" | some (.progExit _) => "why:progExit" | some .childCrashed => "why:childCrashed"
+        | some (.fileFail _ _) => "why:fileFail" | some (.fwdFail _ _) => "why:fwdFail")
+      st := st.bump (match r.sel with
+        | none => "sel:none"
+        | some s => if r.tried.length == 1 then "sel:exact" else s!"sel:default@{min r.tried.length 5}")
+      -- model vs implementation
+      let dt := dtline c.loc c.host
+      let (wtxt, exact) := match r.why with | some w => whyText w | none => ([], true)
+      let wantErr := (if r.stickyWarn then str "Warning: home directory is sticky.\n" else []) ++ wtxt
+      let envL := envS.splitOn ","
+      let mut diffs : List String := []
+      if exit != Int.ofNat r.code then diffs := s!"exit(model {r.code})" :: diffs
+      if out != r.out then diffs := s!"stdout(model {hex r.out})" :: diffs
+      if !(if exact then err == wantErr else wantErr.isPrefixOf err) then diffs := s!"stderr(model {hex wantErr})" :: diffs
+      if opens != hexList r.tried then diffs := s!"opened(model {hexList r.tried})" :: diffs
+      if events != effsStr dt c.msg r.effects then diffs := s!"events(model {effsStr dt c.msg r.effects})" :: diffs
+      if !envAgree (envExpect c r) envL then diffs := "env" :: diffs
+      if !diffs.isEmpty then
+        IO.println s!"DISAGREE in={blob} doit={doitS} what={",".intercalate diffs.reverse |>.replace " " "_"} impl_exit={exitS} impl_out={outH} impl_err={errH} impl_opened={opens} impl_events={events} impl_env={envS}"
+        st := { st with disagree := st.disagree + 1 }
+      -- property oracle on the implementation's behaviour
+      let bad := oracle c exit out opens events envL
+      if !bad.isEmpty then
+        IO.println s!"ORACLE in={blob} doit={doitS} clause={",".intercalate bad.reverse |>.replace " " "_"} impl_exit={exitS} impl_out={outH} impl_opened={opens} impl_events={events}"
+        st := { st with oracle := st.oracle + 1 }
+      if fresh && st.samples < 3 && doit && r.effects.length ≥ 2 then
+        IO.println s!"SAMPLE in={blob} doit={doitS} exit={exitS} opened={opens} events={events}"
+        st := { st with samples := st.samples + 1 }
+      return st
+    | _, _, _, _ => IO.println s!"DISAGREE unparsable line {line.take 300}"; return { st with disagree := st.disagree + 1 }
+  | _ => IO.println s!"DISAGREE unparsable line {line.take 300}"; return { st with disagree := st.disagree + 1 }
+
 def main : IO Unit := runDriver handle
